@@ -128,60 +128,95 @@ def run_c13(facts, out):
         out.anchor('SS-C13', 'lookup ' + kind, hfn is not None)
         if hfn is None:
             continue
-        ctx = Ctx(facts, H.binding_inits(hfn), hfn)
         b = facts.body(fn)
         where = '%s:%d' % (b.file, b.line)
-        bs = find(ctx, hfn['body'], M('binary_search_by', ANY(), ANY()))
-        why = ''
-        if len(bs) != 1:
-            why = 'lookup does not use exactly one binary_search_by'
-        else:
-            n = strip(bs[0][0])
-            fc = H.field_chain(strip(n['recv']))
-            if not fc or fc[0] != 'self' or fc[1] != [lst]:
-                why = 'lookup searches `%s` instead of `%s`' % ('.'.join(fc[1]) if fc else '?', lst)
-            cmpx = _closure_cmp(ctx, n['args'][0])
-            if cmpx is None or cmpx is False or not L('time').m(ctx, cmpx):
-                why = why or 'lookup comparator is not `probe.time.total_cmp(&time)`'
-            else:
-                # ... and `time` is the parameter itself, not a re-bound (clamped, shifted) value
-                nm = strip(cmpx).get('name')
-                params = set()
-                for prm in hfn.get('params', []):
-                    params.update(H.pat_bindings(prm))
-                if nm not in params or ctx.inits.get(nm):
-                    why = why or ('the lookup searches for a value derived from the time asked for (`%s` is re-bound '
-                                  'before the search), not for that time itself' % nm)
-            fb = LOOKUP_FALLBACK[kind]
-            other = 'saturating_sub' if fb == 'checked_sub' else 'checked_sub'
-            has = find(ctx, hfn['body'], M(fb, L('i'), K(1)))
-            hasnt = find(ctx, hfn['body'], M(other, ANY(), ANY()))
-            if not has or hasnt:
-                why = why or ('before the first point the %s lookup must %s; found `%s`' % (
-                    kind, 'return nothing (checked_sub)' if fb == 'checked_sub' else 'return the first point (saturating_sub)',
-                    other if hasnt else 'neither'))
-            # result indexes/gets its own list
-            idx_ok = False
-            for (n2, _a) in find(ctx, hfn['body'], OR(M('get', ANY(), ANY()), M('map', ANY(), ANY()))):
-                pass
-
-            def vis(x, anc, acc=[]):
-                return None
-            used = set()
-
-            def visit(x, anc):
-                if x.get('k') == 'index':
-                    fc2 = H.field_chain(strip(x['e']))
-                    if fc2:
-                        used.add(tuple(fc2[1]))
-                if x.get('k') == 'mcall' and x.get('name') == 'get':
-                    fc2 = H.field_chain(strip(x['recv']))
-                    if fc2:
-                        used.add(tuple(fc2[1]))
-            H.walk(hfn['body'], visit)
-            if used != {(lst,)}:
-                why = why or 'the found index is applied to %s instead of `%s`' % (sorted(used), lst)
+        why = _check_lookup(facts, hfn, kind, lst)
         out.add('SS-C13', fn, 'lookup', where, not why, why, ordinal=False)
+
+
+def _inlined_body(facts, hfn):
+    """the function body with calls of crate-local helpers replaced by the helper's body in which the
+    parameters are replaced by the argument expressions (one level; closures passed as arguments are
+    applied where the helper calls them)"""
+    def beta(n):
+        # `f(x)` where f was substituted by a closure `|p| body` -> body[p := x]
+        if isinstance(n, dict):
+            if n.get('k') == 'call' and isinstance(n.get('f'), dict) and strip(n['f']).get('k') == 'closure':
+                cl = strip(n['f'])
+                ps = cl.get('params', [])
+                if len(ps) == len(n['args']) and all(p.get('k') == 'bind' for p in ps):
+                    return beta(H.subst(cl['body'], {p['name']: a for p, a in zip(ps, n['args'])}))
+            return {k: (v if k in H.CHILD_SKIP else beta(v)) for k, v in n.items()}
+        if isinstance(n, list):
+            return [beta(x) for x in n]
+        return n
+
+    def inline(n):
+        if isinstance(n, dict):
+            d, cargs = None, None
+            if n.get('k') == 'call' and n['f'].get('k') == 'path':
+                d, cargs = n['f'].get('def'), list(n['args'])
+            elif n.get('k') == 'mcall':
+                d, cargs = n.get('def'), [n['recv']] + list(n['args'])
+            if d and dict.__contains__(facts.hir, d) and d != hfn['path']:
+                h2 = facts.hir[d]
+                mapping = H.param_mapping(h2, cargs)
+                if mapping:
+                    return beta(H.subst(h2['body'], mapping))
+            return {k: (v if k in H.CHILD_SKIP else inline(v)) for k, v in n.items()}
+        if isinstance(n, list):
+            return [inline(x) for x in n]
+        return n
+    return inline(hfn['body'])
+
+
+def _check_lookup(facts, hfn, kind, lst):
+    body = _inlined_body(facts, hfn)
+    vh = {'path': hfn['path'], 'params': hfn.get('params', []), 'body': body}
+    ctx = Ctx(facts, H.binding_inits(vh), vh)
+    bs = find(ctx, body, M('binary_search_by', ANY(), ANY()))
+    if len(bs) != 1:
+        return 'lookup does not use exactly one binary_search_by'
+    why = ''
+    n = strip(bs[0][0])
+    fc = H.field_chain(strip(n['recv']))
+    if not fc or fc[0] != 'self' or fc[1] != [lst]:
+        why = 'lookup searches `%s` instead of `%s`' % ('.'.join(fc[1]) if fc else '?', lst)
+    cmpx = _closure_cmp(ctx, n['args'][0])
+    params = set()
+    for prm in hfn.get('params', []):
+        params.update(H.pat_bindings(prm))
+    if cmpx is None or cmpx is False or strip(cmpx).get('k') != 'local':
+        why = why or 'lookup comparator is not `probe.time.total_cmp(&time)`'
+    else:
+        # ... and `time` is the parameter itself, not a re-bound (clamped, shifted) value
+        nm = strip(cmpx).get('name')
+        if nm not in params or nm == 'self' or ctx.inits.get(nm):
+            why = why or ('the lookup searches for a value derived from the time asked for (`%s` is re-bound '
+                          'before the search), not for that time itself' % nm)
+    fb = LOOKUP_FALLBACK[kind]
+    other = 'saturating_sub' if fb == 'checked_sub' else 'checked_sub'
+    has = find(ctx, body, M(fb, ANY(), K(1)))
+    hasnt = find(ctx, body, M(other, ANY(), ANY()))
+    if not has or hasnt:
+        why = why or ('before the first point the %s lookup must %s; found `%s`' % (
+            kind, 'return nothing (checked_sub)' if fb == 'checked_sub' else 'return the first point (saturating_sub)',
+            other if hasnt else 'neither'))
+    used = set()
+
+    def visit(x, anc):
+        if x.get('k') == 'index':
+            fc2 = H.field_chain(strip(x['e']))
+            if fc2:
+                used.add(tuple(fc2[1]))
+        if x.get('k') == 'mcall' and x.get('name') == 'get':
+            fc2 = H.field_chain(strip(x['recv']))
+            if fc2:
+                used.add(tuple(fc2[1]))
+    H.walk(body, visit)
+    if used != {(lst,)}:
+        why = why or 'the found index is applied to %s instead of `%s`' % (sorted(used), lst)
+    return why
 
 
 def _pat_name(p):
@@ -695,7 +730,8 @@ def run_c20(facts, out):
                                 vd = value_def(b, op_local(rv['op'])) if op_local(rv['op']) is not None else None
                                 if vd and vd[0] == 'assign' and vd[1]['rv']['k'] == 'aggr':
                                     nm = vd[1]['rv'].get('variant')
-                            trans.setdefault(cur, set()).add(nm)
+                            if nm != cur:       # staying in the state (next span) is not a transition
+                                trans.setdefault(cur, set()).add(nm)
                         if s['k'] == 'assign' and s['rv']['k'] == 'aggr' and s['rv'].get('adt') == EV + 'SliderEvent':
                             idx = s['rv']['fields'].index('kind')
                             o = s['rv']['ops'][idx]
